@@ -15,7 +15,7 @@
 -/
 import Hv.Storage.Disk
 
-namespace Hv.Storage
+namespace Hv.BlockStore
 
 /-- Code facts the writer/compactor model depends on (each extracted from /repo). -/
 structure Cfg where
@@ -247,4 +247,4 @@ def written : List Act → List Op
   | .w items :: r => items.map (·.1) ++ written r
   | _ :: r => written r
 
-end Hv.Storage
+end Hv.BlockStore
